@@ -933,6 +933,13 @@ func (w *World) send(m *MsgSpec) *Task {
 	if m.DelayNs > 0 {
 		// the SP stamps the message first, then the browser delays delivery: handled inside BuildRequest
 	}
+	if m.Kind == "probe" {
+		m = w.resolveProbe(m)
+		if m == nil {
+			w.noop("probe: no metadata fetched for this host yet, or endpoint not mappable")
+			return nil
+		}
+	}
 	ri := mod(m.Replica, len(w.replicas))
 	t := &Task{ID: len(w.tasks), Msg: m, Replica: ri, RepGen: w.replicas[ri].Gen, w: w,
 		resume: make(chan resumeCmd), done: make(chan struct{}), InFaultEra: !w.healed, Recovery: m.Recovery}
